@@ -1,6 +1,8 @@
 import Pxv.Model.Ty
 import Pxv.Model.TySpec
 import Pxv.Lemmas.Ty
+import Pxv.Lemmas.TyEquiv
+import Pxv.Lemmas.TyCanon
 /-!
 C17 — the type algebra used for dependency matching obeys its laws.
 Property theorems only; every statement is for all types, of any nesting depth.
@@ -35,7 +37,118 @@ example : ∃ T C b, isTemplateFor T C = some b ∧ eraseLt (bind b T) ≠ erase
   ⟨.tuple (.cons (.generic "X") (.cons (.generic "X") .nil)),
    .tuple (.cons (.generic "X") (.cons (.scalar .u8) .nil)), [("X", .scalar .u8)], by decide +kernel, by decide +kernel⟩
 
+/-! ### Equivalence up to renaming of generic parameters -/
+
+/-- **C17 (2a)** reflexive. -/
+theorem equiv_refl (a : Ty) : (isEquivalentTo a a).isSome = true := by
+  simp [isEquivalentTo, equivGo_refl]
+
+/-- **C17 (2b)** symmetric. -/
+theorem equiv_symm (a b : Ty) (h : (isEquivalentTo a b).isSome = true) :
+    (isEquivalentTo b a).isSome = true := by
+  unfold isEquivalentTo at h ⊢
+  cases h1 : equivGo a b ([], []) with
+  | none => simp [h1] at h
+  | some s => have := equivGo_symm a b _ _ h1; simp [this]
+
+/-- **C17 (2c)** transitive. -/
+theorem equiv_trans (a b c : Ty) (h1 : (isEquivalentTo a b).isSome = true)
+    (h2 : (isEquivalentTo b c).isSome = true) : (isEquivalentTo a c).isSome = true := by
+  unfold isEquivalentTo at h1 h2 ⊢
+  cases e1 : equivGo a b ([], []) with
+  | none => simp [e1] at h1
+  | some s1 =>
+    cases e2 : equivGo b c ([], []) with
+    | none => simp [e2] at h2
+    | some s2 => have := equivGo_trans a b c _ _ _ _ _ e1 e2; simp [this]
+
+/-- **C17 (2d)** equivalence never relates types that differ in anything but lifetimes and the
+    names of generic parameters (`skeleton` forgets exactly those, and fn-pointer parameter names). -/
+theorem equiv_only_names (a b : Ty) (h : (isEquivalentTo a b).isSome = true) : skeleton a = skeleton b := by
+  unfold isEquivalentTo at h
+  cases e : equivGo a b ([], []) with
+  | none => simp [e] at h
+  | some s => exact equivGo_skeleton a b _ _ e
+
+/-- In particular `&T` and `&mut T` are never equivalent. -/
+theorem equiv_ref_mutability (m m' : Bool) (l l' : Lt) (a b : Ty)
+    (h : (isEquivalentTo (.ref m l a) (.ref m' l' b)).isSome = true) : m = m' := by
+  have := equiv_only_names _ _ h
+  simp [skeleton] at this
+  exact this.1
+
+/-- The renaming returned by `is_equivalent_to` pairs the unassigned generic parameters of the two
+    types in order of first occurrence. -/
+theorem equiv_renaming (a b : Ty) (m : List (String × String)) (h : isEquivalentTo a b = some m) :
+    m = (unassigned a []).zip (unassigned b []) := by
+  unfold isEquivalentTo at h
+  cases e : equivGo a b ([], []) with
+  | none => simp [e] at h
+  | some s =>
+    have := equivGo_state a b _ _ e
+    simp only [e] at h
+    cases h
+    rw [this]
+
+/-- … and the renaming of the symmetric query is the inverse one. -/
+theorem equiv_symm_renaming (a b : Ty) (m : List (String × String)) (h : isEquivalentTo a b = some m) :
+    isEquivalentTo b a = some (m.map Prod.swap) := by
+  unfold isEquivalentTo at h ⊢
+  cases e : equivGo a b ([], []) with
+  | none => simp [e] at h
+  | some s =>
+    have := equivGo_symm a b _ _ e
+    simp only [e] at h
+    cases h
+    simp [this, zip_map_swap]
+
+-- Non-vacuity: `(&'a T, U, T)` ≡ `(&P, Q, P)` with T ↦ P, U ↦ Q; `(T, U)` ≢ `(P, P)`; `&T` ≢ `&mut T`.
+example : isEquivalentTo
+    (.tuple (.cons (.ref false (.named "a") (.generic "T")) (.cons (.generic "U") (.cons (.generic "T") .nil))))
+    (.tuple (.cons (.ref false .elided (.generic "P")) (.cons (.generic "Q") (.cons (.generic "P") .nil))))
+    = some [("T", "P"), ("U", "Q")] := by decide +kernel
+example : isEquivalentTo (.tuple (.cons (.generic "T") (.cons (.generic "U") .nil)))
+    (.tuple (.cons (.generic "P") (.cons (.generic "P") .nil))) = none := by decide +kernel
+example : isEquivalentTo (.ref false .elided (.generic "T")) (.ref true .elided (.generic "T")) = none := by
+  decide +kernel
+
+/-! ### Canonical forms -/
+
+/-- **C17 (3a)** canonicalisation is idempotent. -/
+theorem canon_idem (a : Ty) : canonicalize (canonicalize a) = canonicalize a := by
+  have := canonGo_idem a ⟨0, []⟩
+  simp only [List.length_nil] at this
+  unfold canonicalize
+  have e : cnames 0 = [] := rfl
+  rw [e] at this
+  rw [this]
+
+/-- **C17 (3b)** two types with equal canonical forms are equivalent. -/
+theorem canon_eq_equiv (a b : Ty) (h : canonicalize a = canonicalize b) :
+    (isEquivalentTo a b).isSome = true := by
+  have := canonGo_equiv a b ⟨0, []⟩ ⟨0, []⟩ h
+  simp only [] at this
+  simp [isEquivalentTo, this]
+
+/-- Every type is equivalent to its canonical form. -/
+theorem equiv_canon (a : Ty) : (isEquivalentTo a (canonicalize a)).isSome = true :=
+  equiv_symm _ _ (canon_eq_equiv _ _ (canon_idem a))
+
+-- Non-vacuity: `Pair<&'x T, &'y U, T>` and `Pair<&V, &'static .., ..>`.
+example : canonicalize
+    (.path false "p" none ["k", "Tri"] (.ty (.ref false (.named "x") (.generic "T"))
+      (.ty (.ref true .elided (.generic "U")) (.ty (.generic "T") (.lt (.named "q") .nil)))))
+    = .path false "p" none ["k", "Tri"] (.ty (.ref false (.named "a") (.generic "A"))
+      (.ty (.ref true (.named "b") (.generic "B")) (.ty (.generic "A") (.lt (.named "c") .nil)))) := by
+  decide +kernel
+example : canonicalize (.tuple (.cons (.ref false (.named "x") (.generic "T")) (.cons (.generic "U") .nil)))
+    = canonicalize (.tuple (.cons (.ref false .inferred (.generic "Q")) (.cons (.generic "R") .nil))) := by
+  decide +kernel
+
 end Pxv.Ty
 
 #print axioms Pxv.Ty.template_bind
 #print axioms Pxv.Ty.refMut_preserved
+#print axioms Pxv.Ty.equiv_trans
+#print axioms Pxv.Ty.canon_idem
+#print axioms Pxv.Ty.canon_eq_equiv
